@@ -104,6 +104,27 @@ def recipe(ck, ctx):
         ck.ob("recipe", "wrapper|%s" % name, okw, "%s forwards its arguments in order to %s" % (name, prim), span=wb.loc, fn=wb.nname)
     # the spawn result is checked
     chk = [(bb, t) for bb, t in b.calls() if callee_of(t) == "process_posix::check_posix_spawn" and any(c[1] == "libc::posix_spawn" for c in calls_in(R.arg(bb, 1)))]
+    # the two result checkers are exact: posix_spawn-family calls report an error as a non-zero return, errno-style calls as a negative one
+    for hn, form in (("process_posix::check_posix_spawn", "nonzero"), ("process_posix::check_ret_errno", "negative")):
+        hb = ck.need("fn " + hn, F.body(hn))
+        hcfg = ctx.cfg(hb)
+        errs_ = [eb for eb, _ in C.err_return_blocks(ctx, hb)]
+        oks_ = [ob for ob, _, _ in C.ok_return_blocks(ctx, hb)]
+        gates_ = set()
+        for sbb, st_, e_ in Q.switches(ctx, hb):
+            se_ = strip(e_)
+            if se_[0] == "bin" and strip(se_[2])[0] == "param" and strip(se_[2])[2] == "ret" and se_[3] == ("const", 0):
+                tl_, fl_ = Q.bool_edges(st_)
+                if form == "nonzero" and se_[1] in ("Ne", "Eq"):
+                    gates_.add((sbb, tl_ if se_[1] == "Ne" else fl_))
+                if form == "negative" and se_[1] in ("Lt", "Ge"):
+                    gates_.add((sbb, tl_ if se_[1] == "Lt" else fl_))
+        okh = len(gates_) == 1 and bool(errs_) and bool(oks_) and all(Q.gated(hcfg, eb, gates_)[0] for eb in errs_)
+        if okh:
+            st0 = [tt for (x, lab) in gates_ for tt in hcfg.edge_targets(x, lab)]
+            okh = not any(ob in hcfg.reach_avoid(st0) for ob in oks_)
+        ck.ob("recipe", "%s|exact" % hn.split("::")[-1], okh, "%s returns Err exactly when its `ret` argument is %s" % (hn.split("::")[-1], "non-zero" if form == "nonzero" else "negative"), span=hb.loc, fn=hn)
+        ck.functions.add(hn)
     ck.ob("recipe", "spawn-result-checked", len(chk) == 1 and RL.try_of_call(ctx, b, chk[0][0]) is not None, "posix_spawn's return value goes through check_posix_spawn(..)?", span=st["loc"], fn=RC)
     # parent side: close(pipe[1]) after spawn; read from pipe[0]
     cl = [(bb, t) for bb, t in b.calls() if callee_of(t) == "libc::close"]
